@@ -900,6 +900,55 @@ pub fn run_c17(tier: &str, only: Option<String>) -> i32 {
         });
         st.merge(ms);
     }
+    // (3c) wide records through the real Adt machinery: 254..258 and 300 fields in chunk 0 (the
+    // position of a field inside its chunk is one byte), with no step, with the last field added by
+    // a step, and with the last / first field made optional by a step: Ok or Err, never an unwind
+    {
+        let widths: Vec<usize> = vec![1, 127, 128, 129, 254, 255, 256, 257, 258, 300];
+        let shapes: [&str; 4] = ["no step", "last field added", "last field made optional", "first field made optional"];
+        let mut cases: Vec<(usize, usize)> = Vec::new();
+        for w in &widths {
+            for s in 0..shapes.len() {
+                cases.push((*w, s));
+            }
+        }
+        let cases: Vec<(usize, usize)> = cases.into_iter().filter(|(w, s)| run.selected(&format!("wide:{w}:{}", shapes[*s]))).collect();
+        let ws = par_items(&cases, Some(bridge::rt::hang_limit()), &|_| {}, &|c: &(usize, usize), st: &mut Stats| {
+            let (w, shape) = *c;
+            let mut fields: Vec<FieldDescr> = (0..w).map(|i| FieldDescr { name: format!("f{i}"), ty: Ty::U8, transient: None, is_option: false, default: None }).collect();
+            let mut vals: Vec<Val> = (0..w).map(|i| Val::U((i % 251) as u128)).collect();
+            let steps = match shape {
+                0 => vec![],
+                1 => {
+                    fields[w - 1].default = Some(Val::U(9));
+                    vec![Step::Added(format!("f{}", w - 1))]
+                }
+                k => {
+                    let i = if k == 2 { w - 1 } else { 0 };
+                    fields[i].ty = Ty::Opt(Box::new(Ty::U8));
+                    fields[i].is_option = true;
+                    vals[i] = Val::Opt(Some(Box::new(vals[i].clone())));
+                    vec![Step::MadeOptional(format!("f{i}"))]
+                }
+            };
+            let ty = Ty::Record(Arc::new(RecordDescr { name: "Wide".into(), steps, fields }));
+            st.states += 1;
+            st.transitions += 1;
+            st.validated += 1;
+            let o = dyn_encode(&ty, &Val::Rec(vals));
+            if o.is_panic() {
+                st.violate(
+                    format!("C17 wide record outcome=Panic shape={}", shapes[shape]),
+                    format!("wide:{w}:{}", shapes[shape]),
+                    json!({"fields_in_chunk_0": w, "evolution": shapes[shape], "library": format!("{o:?}").chars().take(300).collect::<String>()}),
+                );
+                return;
+            }
+            st.bump(&format!("wide-record:{}", o.class()));
+            st.nontrivial += 1;
+        });
+        st.merge(ws);
+    }
     // (4) every value of every type of the universe encodes to Ok or to the documented error
     let its = crate::p_values::items(&u, &run, &|_e: &Entry| true);
     let vs = par_items(&its, Some(bridge::rt::hang_limit()), &|_| {}, &|it: &crate::p_values::Item, st: &mut Stats| {
@@ -934,7 +983,7 @@ pub fn run_c17(tier: &str, only: Option<String>) -> i32 {
     st.merge(vs);
     let _ = guarded_plain(|| ());
     run.stats = st;
-    run.rule = "every Unicode scalar value (1 112 064) through both entry points; zero-width containers and exact-size iterators of length 0, 1, 2^20, 2^31, 2^31+1, 2^32, usize::MAX (thorough: 2^31-1, a 4 GiB+1 Vec<u8>, a 2 GiB String); evolution metadata naming unknown fields through the real Adt machinery; all evolution step lists of length <= 3 (thorough 4) over {FieldAdded, FieldMadeOptional, FieldRemoved, FieldMadeTransient} x {a plain field, an optional field, an undeclared name}, legal or not: never an unwind; every value of every type of the universe (thorough: including the 127/128/129-field and 254-step boundary declarations): Ok or the documented Err variant, never an unwind".into();
+    run.rule = "every Unicode scalar value (1 112 064) through both entry points; zero-width containers and exact-size iterators of length 0, 1, 2^20, 2^31, 2^31+1, 2^32, usize::MAX (thorough: 2^31-1, a 4 GiB+1 Vec<u8>, a 2 GiB String); evolution metadata naming unknown fields through the real Adt machinery; all evolution step lists of length <= 3 (thorough 4) over {FieldAdded, FieldMadeOptional, FieldRemoved, FieldMadeTransient} x {a plain field, an optional field, an undeclared name}, legal or not: never an unwind; records of 1..300 one-byte fields in chunk 0 (around the 127/128 and 255/256 position limits) with no step, an added last field, the last / first field made optional: never an unwind; every value of every type of the universe (thorough: including the 127/128/129-field and 254-step boundary declarations): Ok or the documented Err variant, never an unwind".into();
     run.bounds = json!({"chars": "all scalar values", "universe_thorough": universe::THOROUGH});
     run.finish()
 }
